@@ -152,6 +152,46 @@ theorem C18_error (chi cpd : Option (EF K)) (pre post : List (OutRec K ρ)) (r :
         · simp [filterLoop, hc, hgood, ih']
   exact gen [] []
 
+/-! ### histories: the output paths as state -/
+
+theorem OutFS.read_write_same (fs : OutFS K ρ) (p : String) (recs : List (OutRec K ρ)) :
+    (fs.write p recs).read p = some recs := by
+  simp [OutFS.write, OutFS.read]
+
+theorem OutFS.read_write_other (fs : OutFS K ρ) (p q : String) (recs : List (OutRec K ρ)) (h : q ≠ p) :
+    (fs.write p recs).read q = fs.read q := by
+  have hpq : (p == q) = false := by simpa using (Ne.symm h)
+  have hfun : ∀ e : String × List (OutRec K ρ),
+      decide ((!(e.1 == p)) = true ∧ (e.1 == q) = true) = (e.1 == q) := by
+    intro e
+    by_cases heq : e.1 = q
+    · simp [heq, h]
+    · simp [heq]
+  simp only [OutFS.write, OutFS.read, List.find?_cons, hpq, List.find?_filter, hfun]
+
+/-- **C18 (histories).** However many `filter_output` calls came before, with whatever output names,
+    thresholds and inputs (each input in the domain), after a call whose two output paths differ the
+    *good* path holds exactly this call's good records and the *bad* path exactly its bad records —
+    nothing of what the paths held before survives (both writers truncate on open, also the one that
+    receives no record). -/
+theorem C18_history (fs : OutFS K ρ) (before : List (FilterCall K ρ)) (c : FilterCall K ρ)
+    (hdom : ∀ b ∈ before, HasBest b.input) (hc : HasBest c.input) (hpaths : c.goodPath ≠ c.badPath) :
+    ∃ fs', runFilterCalls fs (before ++ [c]) = .ok fs' ∧
+      fs'.read c.goodPath = some (c.input.filter (goesGood c.chi c.cpd)) ∧
+      fs'.read c.badPath = some (c.input.filter (fun r => !goesGood c.chi c.cpd r)) := by
+  induction before generalizing fs with
+  | nil =>
+    refine ⟨(fs.write c.goodPath (c.input.filter (goesGood c.chi c.cpd))).write c.badPath
+      (c.input.filter (fun r => !goesGood c.chi c.cpd r)),
+      by simp [runFilterCalls, filterOutputFS, filterOutput_ok c.chi c.cpd c.input hc], ?_, ?_⟩
+    · rw [OutFS.read_write_other _ _ _ _ hpaths, OutFS.read_write_same]
+    · rw [OutFS.read_write_same]
+  | cons b bs ih =>
+    have hb : HasBest b.input := hdom b List.mem_cons_self
+    obtain ⟨fs', h1, h2, h3⟩ := ih ((fs.write b.goodPath (b.input.filter (goesGood b.chi b.cpd))).write b.badPath
+      (b.input.filter (fun r => !goesGood b.chi b.cpd r))) (fun q hq => hdom q (List.mem_cons_of_mem _ hq))
+    exact ⟨fs', by simpa [runFilterCalls, filterOutputFS, filterOutput_ok b.chi b.cpd b.input hb] using h1, h2, h3⟩
+
 /-! ### Non-vacuity -/
 
 def exInputC18 : List (OutRec Rat String) :=
@@ -171,5 +211,11 @@ example : ∀ v : EF Rat, some (EF.fin (3 : Rat)) = some v → v.truthy = false 
 example : (filterOutput none (some (EF.fin 3)) exInputC18).toOption.map
       (fun gb => (gb.1.map (·.rest), gb.2.map (·.rest)))
     = some (["s1", "s5"], ["s2", "s3", "s4"]) := by decide +kernel
+
+/-- a history whose last call sends everything to the good file: the bad file ends up empty although
+    the first call had filled it -/
+example : ((runFilterCalls ([] : OutFS Rat String)
+      [⟨exInputC18, "g", "b", none, some (EF.fin 3)⟩, ⟨exInputC18.take 2, "g", "b", some (EF.fin 100), none⟩]).toOption.bind
+      (fun fs => fs.read "b")).map (fun l => l.map (·.rest)) = some [] := by decide +kernel
 
 end SF
